@@ -1,6 +1,7 @@
 SPECIFICATION TraceSpec
 CONSTANTS
   NoRefresh = "norefresh"
+  AsIsNoContain = FALSE
   Which = "contract"
 CONSTRAINT Progress
 POSTCONDITION Accepted
